@@ -1813,6 +1813,12 @@ class Workflow(Trellis):
             # Do not allow volatile files to have sinks.
             if any(file.sinks()):
                 raise GraphError(_volatile_input_message(path))
+            # A detached consumer is a memory, not a conflict.
+            # Should it come back, it must be declared again, so that the conflict is reported:
+            # it loses its stored hash, and so do its detached creators,
+            # which would otherwise bring it back unseen when they are recycled and skipped.
+            for sink in file.sinks(Step, include_detached=True):
+                sink.after_lost_product()
         else:
             # Watch parent directories of non-volatile files.
             self.watch_dir(Path(path).parent)
